@@ -39,6 +39,9 @@ import (
 
 const syncerID = "l1InfoTreeSyncer"
 
+// coTenantID sorts BEFORE the syncer's id, as "bridgel1sync" does next to "l1infotreesync" in a real node
+const coTenantID = "bridgeSyncerNextDoor"
+
 var (
 	gerAddr  = common.HexToAddress("0x00000000000000000000000000000000000000a1")
 	rmAddr   = common.HexToAddress("0x00000000000000000000000000000000000000a2")
@@ -90,6 +93,12 @@ type params struct {
 	Chunk     uint64
 	Restarts  int
 	Bound     int
+	// CoTenant: a second subscriber of the same reorg detector tracks every block right after the syncer does (as the L1
+	// bridge syncer does next to the L1 info tree syncer), so the two subscribers' rows interleave in the detector's table.
+	// The detector checks its subscribers concurrently under a mutex that it holds across its RPCs; a goroutine waiting for
+	// a mutex is not a quiescent goroutine for the bubble, so in these units the detector's RPCs are answered at once
+	// (they are not scheduling points; everything else is).
+	CoTenant bool
 }
 
 func (p params) String() string {
@@ -97,7 +106,11 @@ func (p params) String() string {
 	for _, m := range p.Script {
 		ms = append(ms, m.String())
 	}
-	return fmt.Sprintf("chain=%s finalized=%d chunk=%d script=[%s] restarts=%d", strings.Join(p.Initial, ""), p.Finalized, p.Chunk, strings.Join(ms, " "), p.Restarts)
+	ct := ""
+	if p.CoTenant {
+		ct = " +second-subscriber"
+	}
+	return fmt.Sprintf("chain=%s finalized=%d chunk=%d script=[%s] restarts=%d%s", strings.Join(p.Initial, ""), p.Finalized, p.Chunk, strings.Join(ms, " "), p.Restarts, ct)
 }
 
 func units(tier string) []mc.Unit {
@@ -140,23 +153,26 @@ func units(tier string) []mc.Unit {
 						continue
 					}
 					// one reorg
-					add(params{ini, fin, []Mutation{f1}, chunk, 1, bound})
+					add(params{ini, fin, []Mutation{f1}, chunk, 1, bound, false})
+					if chunk == 10 && (tier == "thorough" || ii == 1) {
+						add(params{ini, fin, []Mutation{f1}, chunk, 1, 1, true}) // the same next to a second subscriber
+					}
 					if tier == "quick" && (ii != 1 || fin != 0) {
 						continue
 					}
 					// successive reorgs, reorg then growth, finality moving in between
-					add(params{ini, fin, []Mutation{f1, {"fork", 1, []string{"e", "e"}}}, chunk, 0, 1})
-					add(params{ini, fin, []Mutation{f1, {"finalize", 0, nil}, {"extend", 0, []string{"e"}}, {"fork", 1, []string{"E"}}}, chunk, 0, 1})
+					add(params{ini, fin, []Mutation{f1, {"fork", 1, []string{"e", "e"}}}, chunk, 0, 1, false})
+					add(params{ini, fin, []Mutation{f1, {"finalize", 0, nil}, {"extend", 0, []string{"e"}}, {"fork", 1, []string{"E"}}}, chunk, 0, 1, false})
 				}
 			}
 			if tier == "quick" && ii == 1 && fin == 1 {
 				// two deviations (e.g. a stop at one point AND the fork at another) on two single-fork scripts, sliced
 				for _, f1 := range []Mutation{{"fork", 1, []string{"-", "e"}}, {"fork", 2, []string{"e", "e"}}} {
-					us = append(us, mc.Sliced(mc.Unit{Name: params{ini, fin, []Mutation{f1}, 10, 1, 2}.String() + " bound=2", Params: params{ini, fin, []Mutation{f1}, 10, 1, 2}}, 16)...)
+					us = append(us, mc.Sliced(mc.Unit{Name: params{ini, fin, []Mutation{f1}, 10, 1, 2, false}.String() + " bound=2", Params: params{ini, fin, []Mutation{f1}, 10, 1, 2, false}}, 16)...)
 				}
 			}
 			// nothing processed is replaced: growth and finality only (no rewind allowed)
-			add(params{ini, fin, []Mutation{{"extend", 0, []string{"e"}}, {"finalize", 0, nil}, {"extend", 0, []string{"-", "e"}}}, 10, 1, 1})
+			add(params{ini, fin, []Mutation{{"extend", 0, []string{"e"}}, {"finalize", 0, nil}, {"extend", 0, []string{"-", "e"}}}, 10, 1, 1, false})
 		}
 	}
 	return us
@@ -305,6 +321,11 @@ func (r *rdWrap) AddBlockToTrack(ctx context.Context, id string, num uint64, has
 	err := r.inc.rd.AddBlockToTrack(ctx, id, num, hash)
 	if err == nil {
 		r.w.trackedUnprocessed[num] = hash
+		if r.w.p.CoTenant {
+			if e2 := r.inc.rd.AddBlockToTrack(ctx, coTenantID, num, hash); e2 != nil {
+				r.w.c.Failf("harness/second-subscriber", "AddBlockToTrack: %v", e2)
+			}
+		}
 	}
 	return err
 }
@@ -479,7 +500,11 @@ func run(c *mc.Ctx, u mc.Unit) {
 	rdPath := filepath.Join(dir, "rd.sqlite")
 	var incs []*incarnation
 	for i := 0; i <= p.Restarts; i++ {
-		rd, err := reorgdetector.New(simchain.NewClient(chain, sched, fmt.Sprintf("5rd#%d", i)),
+		rdClient := simchain.NewClient(chain, sched, fmt.Sprintf("5rd#%d", i))
+		if p.CoTenant {
+			rdClient.S = nil
+		}
+		rd, err := reorgdetector.New(rdClient,
 			reorgdetector.Config{DBPath: rdPath, FinalizedBlock: aggkittypes.FinalizedBlock}, reorgdetector.L1)
 		if err != nil {
 			panic(err)
@@ -502,6 +527,28 @@ func (w *world) start(inc *incarnation) bool {
 	if err := inc.rd.VerifLoad(); err != nil {
 		w.c.Failf("harness/detector-load", "%v", err)
 		return false
+	}
+	if w.p.CoTenant {
+		sub, err := inc.rd.Subscribe(coTenantID)
+		if err != nil {
+			w.c.Failf("harness/second-subscriber", "%v", err)
+			return false
+		}
+		go func() { // the second subscriber acknowledges every notification at once (its own store is not under test)
+			for {
+				select {
+				case <-w.endAll:
+					return
+				case <-sub.ReorgedBlock:
+					w.c.Witness("second_subscriber_notified")
+					select {
+					case sub.ReorgProcessed <- true:
+					case <-w.endAll:
+						return
+					}
+				}
+			}
+		}()
 	}
 	appender, err := l1infotreesync.VerifBuildAppender(simchain.NewClient(w.chain, w.sched, "0cfg"), gerAddr, rmAddr)
 	if err != nil {
